@@ -52,6 +52,16 @@ CHECKS = {
     technique="SMT translation validation of simplify_unitary with the named tensor valued as an orthogonal matrix through a complete, homogenised rational parametrisation (rotation / Euler-Rodrigues quaternion, both determinant sheets): z3 decides value equality for all parameters, remainder entries and target assignments",
     text="Each run of the real simplify_unitary (with and without delta evaluation, explicit or Einstein targets) on generated products of 2-5 unitary tensors is validated for every orthogonal matrix of dimension 2 or 3 on the tensor's index space.",
     note="Orthogonal groups O(2), O(3) only; total degree in the unitary tensor <= 6 (thorough 7); shapes from a seeded generator. A self-test proves U_pq U_pr c_qr = c_qq and refutes the mixed-position variant on every run."),
+ "C06": dict(
+    level=TV, design="2/C06", engine="tvsmt",
+    technique="z3: value of every constructed tensor object (sign + stored index order) equals the entry its raw index tuple denotes under an independent reading of the declared symmetry, for all entries and orbital assignments of a typed model; CrossHair symbolic execution of _need_bra_ket_swap / sort_idx_canonical / preferred_and_killable (regenerated from source) over symbolic index attributes",
+    text="All pairs (rank 1|1) and sampled tuples (ranks 2|2, 2|1, 3|3) over a 16-index pool (occ/virt/general, spin none/alpha/beta, numbered names) x 3 tensor classes x bra-ket 0/+1/-1, all delta pairs, substitutions, and Expr assumptions (idempotence direct, value by z3). CrossHair confirms totality/antisymmetry of the bra-ket swap decision and the canonical sort order for symbolic spaces, spins and names.",
+    note="Oracle for 'declared symmetry' = vlib/model.canon_entry (independent). Bounded index pool and ranks; CrossHair stubs: duck-typed Index, hash(idx)=0. The bra-ket-antisymmetric diagonal (not listed by the property as a forced zero) is not demanded."),
+ "C18": dict(
+    level=TV, design="2/C18", engine="tvsmt",
+    technique="z3 value equivalence of each expression with the expression re-imported from its printed LaTeX (symbolic tensor entries, all target assignments); tensor kinds and re-printed text compared directly; operator expressions structurally",
+    text="For generated expressions covering every printable object kind and for library results (energies, amplitudes, wavefunctions, precursor states, matrix blocks, densities, symbolic-denominator and real variants) the value conjunct of the round trip is decided by z3, kinds and text by direct comparison.",
+    note="Only the value conjunct is a solver verdict (kinds/text have no quantifier left). Default tensor-name configuration; bra-ket symmetries only through Expr assumptions (object-level flags are not printed)."),
 }
 NA_REASON = "check not built yet in this round (planned, see DESIGN.md section 2)"
 
